@@ -15,7 +15,7 @@ from fractions import Fraction
 from vf import core
 
 ID = 'C14'
-N = {'quick': 60000, 'thorough': 600000}
+N = {'quick': 600000, 'thorough': 3000000}
 NT_RULE = ('reaction strings over names from the stated grammar (letter/(/*/_ first, then letters, digits, '
            '()*_), 1-4 species per side, integer / decimal / omitted coefficients, repeated species, 0-1 '
            'transition state, random blanks, delimiters + = <=> . >> and custom ones, every stoich_format and '
